@@ -3,7 +3,7 @@ from __future__ import annotations
 import hashlib, json, os, sys, time
 
 ROOT = os.path.dirname(os.path.dirname(os.path.dirname(os.path.abspath(__file__))))
-EVID = os.path.join(ROOT, 'evidence')
+EVID = os.environ.get('VERIF_EVIDENCE_DIR') or os.path.join(ROOT, 'evidence')     # (redirected when a seeded defect is being run)
 REPLAYS = os.path.join(ROOT, 'replays')
 FINDINGS = os.path.join(ROOT, 'known_findings.json')
 REPO = os.environ.get('VERIF_REPO', '/repo')
